@@ -73,8 +73,21 @@ def gen_calls(tier, rng):
                 u = list(w); u[j] = rng.randrange(2048); dec(u)
 
     quick = tier == "quick"
-    battery(bytes(16), 16, 5)
-    battery(b"\xff" * 16, 16, 5)
+    # boundary calls; they are also the PROBES interleaved after every other call by the replay
+    # harness (history independence: the reply is a function of the call alone)
+    core = (bytes(16), b"\xff" * 16, b"\x7f" * 16, b"\x80" * 16)
+    for e in core:                            # the most telling probes first: valid phrase, encode
+        dec(py_words(e)); enc(e)
+    for i in (0, 63, 64, 120, 121, 127):
+        e = bytearray(16); e[i // 8] |= 1 << (7 - i % 8)
+        dec(py_words(bytes(e))); enc(bytes(e))
+    for e in core:                            # then every last-word variant
+        w = py_words(e)
+        for v in range(16):
+            dec(w[:11] + [(w[11] & ~15) | v])
+    nprobe = len(calls)
+    battery(bytes(16), 0, 5)
+    battery(b"\xff" * 16, 0, 5)
     battery(bytes(range(16)), 16, 5)          # BIP39-style test vector
     for i in range(128):
         e = bytearray(16); e[i // 8] |= 1 << (7 - i % 8)
@@ -93,7 +106,7 @@ def gen_calls(tier, rng):
             e = py_entropy(u); u[11] = (u[11] & ~15) | (hashlib.sha256(e).digest()[0] >> 4)
             dec(u)
     dec([0] * 12); dec([2047] * 12); dec([0] * 11 + [3]); dec([]); dec([0] * 24)
-    return calls
+    return calls, nprobe
 
 
 # ------------------------------------------------------------------ legs
@@ -115,7 +128,7 @@ def leg_m(wd, tier):
 
 def leg_r(wd, tier, binary, verdict, codec="real"):
     rng = random.Random(vlib.seed() * 7919 + 20)
-    calls = gen_calls(tier, rng)
+    calls, nprobe = gen_calls(tier, rng)
     cp = os.path.join(wd, "calls.ndjson")
     with open(cp, "w") as f:
         for c in calls:
@@ -130,7 +143,9 @@ def leg_r(wd, tier, binary, verdict, codec="real"):
     if ned != 2 * len(calls):
         raise vlib.Infra("SeedGen exported %d edges for %d calls" % (ned, len(calls)))
     inp = os.path.join(wd, "replay_in.json")
-    json.dump({"codec": codec, "calls": calls,
+    reply_of = {e["act"]["k"]: e for e in r.edges if e["act"]["op"] != "Reset"}
+    probes = [{"k": k, "op": reply_of[k]["act"]["op"], "reply": reply_of[k]["reply"]} for k in range(1, nprobe + 1)]
+    json.dump({"codec": codec, "calls": calls, "probes": probes,
                "paths": [[{"k": e["act"]["k"], "op": e["act"]["op"], "reply": e["reply"]} for e in p] for p in paths]},
               open(inp, "w"))
     res = vlib.go_run(binary, "TestReplay", wd, env={"VERIF_IN": inp}, timeout=900)
@@ -160,7 +175,7 @@ def retokenise(path, windex):
     n = 0
     with open(path) as f:
         for i, line in enumerate(f):
-            if not (line.startswith('{"op":"Dec"') or line.startswith('{"op":"New"')):
+            if not line.startswith(('{"op":"Dec"', '{"op":"Sfp"', '{"op":"New"')):
                 continue
             ev = json.loads(line)
             raw = ev["raw"]
@@ -255,9 +270,9 @@ def validate_file(wd, path, tag, verdict, codec="real", max_rej=3, stop=None):
 
 TIERS = {
     "quick":    dict(VERIF_UNIFORM=120, VERIF_SWEEP=1, VERIF_SWEEPFIX=8, VERIF_PATTERN=256, VERIF_NEW=64, VERIF_SHARDS=8,
-                     VERIF_NWS=3, VERIF_NMAL=3, VERIF_NKEY=3),
+                     VERIF_NWS=3, VERIF_NMAL=3, VERIF_NKEY=3, VERIF_HIST=1),
     "thorough": dict(VERIF_UNIFORM=6000, VERIF_SWEEP=4, VERIF_SWEEPFIX=1, VERIF_PATTERN=4096, VERIF_NEW=2000, VERIF_SHARDS=16,
-                     VERIF_NWS=8, VERIF_NMAL=8, VERIF_NKEY=4),
+                     VERIF_NWS=8, VERIF_NMAL=8, VERIF_NKEY=4, VERIF_HIST=2),
 }
 
 
@@ -411,7 +426,7 @@ def selftest():
         log("selftest 1 (wrong codec %s detected by replay: %s): %s" % (codec, want, "ok" if ok else "FAILED"))
         allok = allok and ok
     # 2. corrupted recordings
-    small = dict(VERIF_UNIFORM=6, VERIF_SWEEP=0, VERIF_PATTERN=8, VERIF_NEW=8, VERIF_SHARDS=1, VERIF_BITS=0)
+    small = dict(VERIF_UNIFORM=6, VERIF_SWEEP=0, VERIF_PATTERN=8, VERIF_NEW=8, VERIF_SHARDS=1, VERIF_BITS=0, VERIF_HIST=0)
     v = new_verdict()
     tt = leg_t(wd, "quick", binary, v, env=small, workers=2)
     ok = tt["rejected"] == 0 and not v.violations and tt["events"] > 100
